@@ -167,7 +167,7 @@ func propC11(r *kernel.Run) {
 	var flying []*inflight
 	checked := map[*epochKeys]bool{}
 	lastOfType := map[string]proto.Message{}
-	nsteps := tp.Range(10, 60)
+	nsteps := tp.Range(10, r.Deep(60, 200))
 	for st := 0; st < nsteps; st++ {
 		// key agreement: both sides of one epoch derive the same secret and key ID, equal to an independent X25519
 		for _, e := range []*epochKeys{node.cur, srv.cur} {
@@ -183,7 +183,7 @@ func propC11(r *kernel.Run) {
 			}
 		}
 		switch k := tp.Draw(10); {
-		case k < 2 && rotations < 3: // rotate: one or both sides move to a new epoch; previous key recorded or not
+		case k < 2 && rotations < r.Deep(3, 8): // rotate: one or both sides move to a new epoch; previous key recorded or not
 			rotations++
 			ne := newEpoch(rotations, node.cur)
 			who := tp.Draw(4) // 0 both, 1 node only (reply lost on the way back is modelled as server only), 2 server only, 3 both
